@@ -1405,6 +1405,8 @@ impl ValidationCache {
         key: &ValidationCacheKey,
         context: &RrsetVerificationContext<'_>,
     ) -> Option<Result<RrsetProof, ProofError>> {
+        #[cfg(feature = "verif-hooks")]
+        use crate::proto::verif::Instant;
         let (ttl, cached) = self.inner.lock().get_mut(key)?.clone();
 
         if Instant::now() < ttl {
@@ -1430,6 +1432,8 @@ impl ValidationCache {
         key: ValidationCacheKey,
         cx: &RrsetVerificationContext<'_>,
     ) {
+        #[cfg(feature = "verif-hooks")]
+        use crate::proto::verif::Instant;
         debug!(
             name = ?cx.key.name,
             record_type = ?cx.key.record_type,
@@ -1985,6 +1989,44 @@ const MAX_RRSIGS_PER_RRSET: usize = 8;
 /// The default validation cache size.  This is somewhat arbitrary, but set to the same size as the default
 /// recursor response cache
 const DEFAULT_VALIDATION_CACHE_SIZE: usize = 1_048_576;
+
+/// Verification hooks: public wrappers of the private NSEC / NSEC3 decision procedures.
+#[cfg(feature = "verif-hooks")]
+#[allow(missing_docs, unreachable_pub)]
+pub mod verif {
+    use super::*;
+
+    pub fn verify_nsec(
+        query: &Query,
+        soa_name: Option<&Name>,
+        response_code: ResponseCode,
+        answers: &[Record],
+        nsecs: &[(&Name, &NSEC)],
+    ) -> Proof {
+        super::verify_nsec(query, soa_name, response_code, answers, nsecs)
+    }
+
+    #[allow(clippy::too_many_arguments)]
+    pub fn verify_nsec3(
+        query: &Query,
+        soa: Option<&Name>,
+        response_code: ResponseCode,
+        answers: &[Record],
+        nsec3s: &[(&Name, &crate::proto::dnssec::rdata::NSEC3)],
+        nsec3_soft_iteration_limit: u16,
+        nsec3_hard_iteration_limit: u16,
+    ) -> Proof {
+        super::verify_nsec3(
+            query,
+            soa,
+            response_code,
+            answers,
+            nsec3s,
+            nsec3_soft_iteration_limit,
+            nsec3_hard_iteration_limit,
+        )
+    }
+}
 
 #[cfg(test)]
 mod test {
